@@ -162,7 +162,7 @@ def coq_ocmd(tok):
         return "(%s %s)" % ("OHave" if k == "HAVE" else "ORequest", t[1])
     if k == "KILL":
         return "(OKill %s)" % ("true" if t[1] == "N" else "false")
-    return {"CHOKE": "OChoke", "INT": "OInt", "UNCHOKE": "OUnchoke", "NOTINT": "ONotInt", "DONE": "ODone", "CANCEL": "OCancel"}[k]
+    return {"CHOKE": "OChoke", "INT": "OInt", "UNCHOKE": "OUnchoke", "NOTINT": "ONotInt", "DONE": "ODone", "CANCEL": "OCancel", "DONE-EARLY": "ODoneEarly"}[k]
 
 
 class Scenario:
